@@ -94,15 +94,18 @@ AppendEpochRejected(c) ==
   /\ mode = "none" /\ MAppendRejected(c) /\ UNCHANGED evars
 
 SampleNextBegin ==
-  /\ mode = "none" /\ HasMore
+  /\ mode = "none" /\ pc = "idle" /\ HasMore
   /\ mode' = "one" /\ pc' = "start"
   /\ UNCHANGED <<mvars, kk, epoch, warmupEnded, inChunk, chunkbuf, chains, counter, nInfo,
                  mstate, carry, round, log, quants, qbuf>>
 
-SampleNextRejected == mode = "none" /\ ~HasMore /\ UNCHANGED <<mvars, evars>>   \* RuntimeError
+SampleNextRejected == mode = "none" /\ pc = "idle" /\ ~HasMore /\ UNCHANGED <<mvars, evars>>   \* RuntimeError
+\* after a chunk mismatch (below) the epoch stays active: every later sampling call raises "Epoch is active and not
+\* completed" (sample_all_epochs only if an epoch is left; otherwise it returns without doing anything)
+SampleStuck == mode = "none" /\ pc = "stuck" /\ UNCHANGED <<mvars, evars>>
 
 SampleAllBegin ==
-  /\ mode = "none"
+  /\ mode = "none" /\ pc = "idle"
   /\ IF HasMore THEN mode' = "all" /\ pc' = "start" ELSE UNCHANGED <<mode, pc>>
   /\ UNCHANGED <<mvars, kk, epoch, warmupEnded, inChunk, chunkbuf, chains, counter, nInfo,
                  mstate, carry, round, log, quants, qbuf>>
@@ -179,6 +182,14 @@ ChunkBegin ==
   /\ pc' = "iter" /\ kk' = 1 /\ inChunk' = 0 /\ chunkbuf' = <<>> /\ qbuf' = <<>>
   /\ round' = carry /\ carry' = SplitCarry      \* keys of the chunk: round \o <<1..J>>
   /\ UNCHANGED <<mvars, mode, epoch, warmupEnded, chains, counter, nInfo, mstate, log, quants>>
+
+\* _sample_for_duration refuses a duration that is not a multiple of the chunk length: the call raises with the epoch
+\* already started (end_warmup / start_epoch calls made, chains advanced) and the engine cannot sample any more
+ChunkMismatch ==
+  /\ pc = "sampling" /\ epoch.tie = 0 /\ epoch.dur % J # 0
+  /\ pc' = "stuck" /\ mode' = "none"
+  /\ UNCHANGED <<mvars, kk, epoch, warmupEnded, inChunk, chunkbuf, chains, counter, nInfo, mstate, carry, round, log,
+                 quants, qbuf>>
 
 \* kernel k inside scan_f; iteration j of the chunk uses key round \o <<j>>,
 \* key_trans = that \o <<0>>, kernel key = key_trans \o <<k-1>>
